@@ -600,14 +600,7 @@ func loopMakesProgress(fn *ssa.Function, header, tail *ssa.BasicBlock) (string, 
 	}
 	// (b) every cycle passes through a response-consuming call
 	isHeaderStart := func(in ssa.Instruction) bool { return in == header.Instrs[0] }
-	consumes := func(in ssa.Instruction) bool {
-		ci, ok := in.(ssa.CallInstruction)
-		if !ok {
-			return false
-		}
-		n := facts.CalleeName(ci.Common())
-		return strings.HasSuffix(n, "ociclient.client).do") || strings.HasSuffix(n, "ociclient.client).doRequest") || strings.HasSuffix(n, "http.Client).Do")
-	}
+	consumes := func(in ssa.Instruction) bool { return consumesResponse(in, 2) }
 	if _, free := facts.ReachesFrom(header, 1, isHeaderStart, consumes, nil); !free {
 		// also the first instruction itself may be the consuming call; fine
 		return "every iteration consumes one server response (client.do)", true
@@ -820,4 +813,29 @@ func trueImpliesStatusEq(v ssa.Value, depth int, seen map[ssa.Value]bool) bool {
 		return len(x.Edges) > 0
 	}
 	return false
+}
+
+// consumesResponse: in is a call of client.do / doRequest / http.Client.Do, or
+// of a private helper of the module every one of whose returns lies behind
+// such a call (so calling it consumes one server response).
+func consumesResponse(in ssa.Instruction, depth int) bool {
+	ci, ok := in.(ssa.CallInstruction)
+	if !ok {
+		return false
+	}
+	n := facts.CalleeName(ci.Common())
+	if strings.HasSuffix(n, "ociclient.client).do") || strings.HasSuffix(n, "ociclient.client).doRequest") || strings.HasSuffix(n, "http.Client).Do") {
+		return true
+	}
+	h := ci.Common().StaticCallee()
+	if h == nil || depth <= 0 || h.Blocks == nil || len(privateCallSites(h)) == 0 {
+		return false
+	}
+	isRet := func(x ssa.Instruction) bool { _, ok := x.(*ssa.Return); return ok }
+	inner := func(x ssa.Instruction) bool { return consumesResponse(x, depth-1) }
+	if len(h.Blocks[0].Instrs) > 0 && inner(h.Blocks[0].Instrs[0]) {
+		return true
+	}
+	_, free := facts.ReachesFrom(h.Blocks[0], 0, isRet, inner, nil)
+	return !free
 }
